@@ -638,6 +638,10 @@ class Manager:
 
             self._cache[(event.name, channels)] = event_handlers
 
+        # a handler may call flush(): when this (nested) dispatch is over, the
+        # event of the dispatch that is still in progress is being handled again
+        outer = self._currently_handling
+
         if isinstance(event, generate_events):
             with self._lock:
                 self._currently_handling = event
@@ -687,7 +691,7 @@ class Manager:
             if event.stopped:
                 break  # Stop further event processing
 
-        self._currently_handling = None
+        self._currently_handling = outer
         if err is not None:
             # remembered for the _eventDone() call made once suspended
             # (generator) handlers of this event have finished
